@@ -10,6 +10,7 @@ from torcheval.metrics import functional as Fn
 from ..catalogue import Entry, F
 
 DEN = 64
+FINE_DEN = 2 ** 40
 WEIGHTS = [F(1, 4), F(1, 2), F(1), F(2), F(3)]
 MINP = [F(0), F(1, 4), F(1, 2), F(3, 4), F(1)]
 
@@ -19,6 +20,10 @@ MINP = [F(0), F(1, 4), F(1, 2), F(3, 4), F(1)]
 # ---------------------------------------------------------------------------------------------
 def gen_scores(rng, n, den=DEN, mode=None):
     """n grid scores with a chosen tie structure."""
+    if den > 2 ** 30 and mode is None and rng.random() < 0.75:
+        # fine grid (float64 inputs): clusters of scores that differ only far below float32 resolution
+        bases = [rng.randrange(0, 2 ** 16) * 2 ** 24 for _ in range(rng.randint(1, 3))]
+        return [rng.choice(bases) + rng.randint(0, 6) for _ in range(n)]
     mode = mode or rng.choice(["distinct", "const", "two", "three", "half", "levels", "levels", "neg", "wide"])
     if mode == "const":
         v = rng.randint(0, den)
@@ -57,7 +62,7 @@ def T_(rows):
 def fl(x, den=DEN, dtype=torch.float32):
     def conv(y):
         return [conv(z) for z in y] if isinstance(y, list) else y / den
-    return torch.tensor(conv(x), dtype=dtype)
+    return torch.tensor(conv(x), dtype=torch.float64 if den > 2 ** 23 else dtype)
 
 
 class _Curve(Entry):
@@ -69,6 +74,17 @@ class _Curve(Entry):
 
     def kwargs(self, cfg):
         return {k: v for k, v in cfg.items() if k != "den"}
+
+    def __init_subclass__(cls, **kw):
+        # every curve class is also exercised with float64 scores on a 2^-40 grid
+        super().__init_subclass__(**kw)
+        if "configs" in cls.__dict__:
+            orig = cls.__dict__["configs"]
+
+            def configs(self, rng, quick=True, _orig=orig):
+                cfgs = _orig(self, rng, quick)
+                return cfgs + [dict(cfgs[0], den=FINE_DEN)]
+            cls.configs = configs
 
     def avg(self, cfg):
         return 1 if cfg.get("average") == "macro" else 0
